@@ -95,6 +95,16 @@ pub fn programs(tier: Tier) -> ProgramSet {
             }
         }
     }
+    // `disabled` written next to other keys in the same list (before and after them)
+    {
+        let mut s = EnumSpec::base(4);
+        s.name = "En".into();
+        s.variants[1].disabled = true;
+        s.variants[1].message = Some("m".into());
+        s.variants[2].disabled = true;
+        s.variants[2].serialize = vec!["ss".into()];
+        add("B4 + v1: #[strum(disabled, message = ..)] + v2: #[strum(serialize = .., disabled)]".to_string(), s, &mut out);
+    }
     // declaration context: enum, table and glue inside a fn body
     {
         let mut s = EnumSpec::base(3);
@@ -102,6 +112,13 @@ pub fn programs(tier: Tier) -> ProgramSet {
         s.variants[1].disabled = true;
         s.syntax.push("in-fn".into());
         add("B3 + v1.disabled + context: declared inside a fn body".to_string(), s, &mut out);
+    }
+    {
+        let mut s = EnumSpec::base(3);
+        s.name = "En".into();
+        s.variants[0].disabled = true;
+        s.syntax.push("result-alias".into());
+        add("B3 + v0.disabled + context: `type Result<T>` alias in scope".to_string(), s, &mut out);
     }
     // SCALE: wide tables (more slots than any hand-written test; reduced write alphabet, see explore)
     for n in (if tier == Tier::Quick { vec![9usize] } else { vec![9usize, 12] }) {
